@@ -14,6 +14,8 @@ use std::path::Path;
 
 #[derive(Clone, Debug, serde::Serialize, serde::Deserialize, Default)]
 pub struct FaultSpec {
+    #[serde(default)]
+    pub engine: String,
     /// "sample" or "all"
     pub mode: String,
     pub samples: usize,
@@ -25,12 +27,14 @@ pub struct FaultSpec {
 pub fn default_plan(tier: &str) -> FaultSpec {
     if tier == "thorough" {
         FaultSpec {
+            engine: "fault".into(),
             mode: "all".into(),
             samples: 0,
             explicit: vec![],
         }
     } else {
         FaultSpec {
+            engine: "fault".into(),
             mode: "sample".into(),
             samples: 10,
             explicit: vec![],
@@ -233,7 +237,8 @@ fn run_with_fault(
             });
         }
         // 3. either reopen now (before or after state), or retry
-        let reopen_now = rng.chance(1, 3);
+        let c20 = prop.id == "C20";
+        let reopen_now = c20 || rng.chance(1, 3);
         if reopen_now {
             stats.inc("fault_then_reopen");
             let after_durable = base.durable_after[i].clone();
@@ -252,8 +257,12 @@ fn run_with_fault(
             e.visible = lsm_tree::SequenceNumberCounter::default();
             if let Err(v) = e.open() {
                 return Err(Violation {
-                    tag: "fault".into(),
-                    class: format!("fault/reopen-failed-after-failed-{}", op.name()),
+                    tag: if c20 { "files".into() } else { "fault".into() },
+                    class: if c20 {
+                        format!("files/live-file-gone-after-failed-{}", op.name())
+                    } else {
+                        format!("fault/reopen-failed-after-failed-{}", op.name())
+                    },
                     msg: format!("after {} failed at {site}, reopening fails: {}", op.name(), v.msg),
                     at_op: i,
                 });
@@ -275,6 +284,11 @@ fn run_with_fault(
                     ),
                     at_op: i,
                 });
+            }
+            if c20 {
+                // whatever the failed operation left behind must be gone after the reopen
+                e.check_files_after_reopen()?;
+                stats.inc("files_checked_after_failed_op_and_reopen");
             }
             // the rest of the history cannot be compared with the model any more (the model
             // does not know which of the two states was chosen): the evaluation ends here
